@@ -2,7 +2,7 @@
    [wf_value] (Model/Wf.v) is the Gallina counterpart of the hook cty.VerifWellFormed; the
    correspondence compares the two verdicts on every value any check obtains from the library.
    Statements only; proofs are `exact <lemma>` into Proofs/WfProofs.v. *)
-From Cty Require Import Base Ty BigFloat Value Hash Ops Refine Wf WfProofs.
+From Cty Require Import Base Ty BigFloat Value Hash Ops Refine Wf Json Msgpack Walk WfProofs JsonRoundTrip WfRT.
 Open Scope Z_scope.
 
 (* primitive constructors *)
@@ -60,3 +60,35 @@ Print Assumptions C06_greater_than.
 Print Assumptions C06_tuple_type.
 Print Assumptions C06_tuple_length.
 Print Assumptions C06_list_elem_type.
+
+(* ---- values nested to any depth ---- *)
+(* every value of the structural fragment [RT] (booleans, strings, nulls, unrefined unknowns, lists, tuples, maps
+   and objects, nested arbitrarily) whose type is well-formed and free of optional-attribute annotations is
+   well-formed: members have exactly the declared types, tuple lengths and attribute sets match, keys are sorted
+   and normalised *)
+Theorem C06_structural_wf : forall norm unk t p, RT norm unk t p -> wf_ty t = true -> has_opt t = false ->
+  wf_value norm (V t p) = true.
+Proof. exact RT_wf_value. Qed.
+Print Assumptions C06_structural_wf.
+(* hence what a traversal and the two decoders return for such a value is well-formed *)
+Theorem C06_identity_transform_wf : forall norm unk t p, RT norm unk t p -> wf_ty t = true -> has_opt t = false ->
+  exists r, transform norm (fun _ x => Ok x) (V t p) = Ok r /\ wf_value norm r = true.
+Proof. exact identity_transform_wf. Qed.
+Print Assumptions C06_identity_transform_wf.
+Theorem C06_json_decoded_wf : forall norm t p, RT norm false t p -> wf_ty t = true -> has_opt t = false ->
+  exists j r, json_marshal (V t p) t = Ok j /\ json_unmarshal norm j t = Ok r /\ wf_value norm r = true.
+Proof. exact json_decoded_wf. Qed.
+Print Assumptions C06_json_decoded_wf.
+Theorem C06_msgpack_decoded_wf : forall norm unk trunc jp t p, RT norm unk t p -> wf_ty t = true -> has_opt t = false ->
+  exists m r, mp_marshal trunc (V t p) t = Ok m /\ mp_unmarshal norm jp m t = Ok r /\ wf_value norm r = true.
+Proof. exact mp_decoded_wf. Qed.
+Print Assumptions C06_msgpack_decoded_wf.
+Example C06_structural_nonvacuous :
+  let t := TObj [([97%N], TList (TTuple [TStr; TBool])); ([98%N], TMap TStr)] [] in
+  let p := PMap [([97%N], PSeq [PSeq [PStr [120%N]; PBool true]; PNull]); ([98%N], PMap [([107%N], PStr []); ([108%N], PNull)])] in
+  RT (fun s => s) false t p /\ wf_ty t = true /\ has_opt t = false.
+Proof.
+  cbv zeta. split; [|split; reflexivity].
+  apply RT_obj; [reflexivity|intros; reflexivity|].
+  repeat constructor; cbn; auto; try (intros; reflexivity).
+Qed.
